@@ -31,7 +31,10 @@ func (s *State) LoginEnable(pass string, cfg *program.Config) {
 		if !waitPrompt("enable", "#") {
 			// Enable password required.
 			// Use login password as enable password.
-			if !waitPrompt(pass, "#") {
+			// Send it only if device asks for a password, otherwise
+			// it would be taken as command and echoed to the log.
+			if !strings.HasSuffix(strings.ToLower(out), "password:") ||
+				!waitPrompt(pass, "#") {
 				errlog.Abort("Authentication for enable mode failed")
 			}
 		}
